@@ -1157,6 +1157,9 @@ Vattach(HFILEID     f,    /* IN: file handle */
     }
     else {
         /******* access an EXISTING vg *********/
+        /* a reference has 16 bits; a larger id names no vgroup and must not wrap onto one */
+        if (vgid < 0 || vgid > (int32)MAX_REF)
+            HGOTO_ERROR(DFE_ARGS, FAIL);
         if (NULL == (v = vginst(f, (uint16)vgid)))
             HGOTO_ERROR(DFE_NOMATCH, FAIL);
 
@@ -2026,7 +2029,7 @@ Ventries(HFILEID f, /* IN: file handle */
     HEclear();
 
     /* check vgroup id? */
-    if (vgid < 1)
+    if (vgid < 1 || vgid > (int32)MAX_REF)
         HGOTO_ERROR(DFE_ARGS, FAIL);
 
     if ((v = vginst(f, (uint16)vgid)) == NULL)
